@@ -19,3 +19,6 @@ package transportoptions
 //@ func (*transportoptions.TransportOptions).ClearAll {C20}
 //@   acquires {C20} TransportOptions.optionsLk
 //@   modifies to.options
+
+//@ func transportoptions.NewTransportOptions {C20}
+//@   constructor
